@@ -945,7 +945,7 @@ func typedefCyclePass(c *core.Ctx) (bool, string) {
 	}
 	var call ssa.Instruction
 	core.Instrs(f, func(in ssa.Instruction) {
-		if cl, ok := in.(*ssa.Call); ok && cl.Call.StaticCallee() != nil && cl.Call.StaticCallee().Name() == "findTypeCycles" {
+		if cl, ok := in.(*ssa.Call); ok && cl.Call.StaticCallee() != nil && c.Named(cl.Call.StaticCallee(), "findTypeCycles") {
 			call = in
 		}
 	})
@@ -1009,7 +1009,7 @@ func typedefCyclePass(c *core.Ctx) (bool, string) {
 	}
 	visitedFirst := false
 	core.Instrs(vf, func(in ssa.Instruction) {
-		if cl, ok := in.(*ssa.Call); ok && cl.Call.StaticCallee() != nil && cl.Call.StaticCallee().Name() == "visited" {
+		if cl, ok := in.(*ssa.Call); ok && cl.Call.StaticCallee() != nil && c.Named(cl.Call.StaticCallee(), "visited") {
 			visitedFirst = true
 		}
 	})
@@ -1063,7 +1063,7 @@ func checkTermLoops(c *core.Ctx, l *core.Ledger, keep func(*ssa.Function) bool) 
 				l.Ok("LOOPS", key, pos, why)
 			} else if why, ok := fieldChaseLoop(c, f, body); ok {
 				l.Ok("LOOPS", key, pos, why)
-			} else if why, ok := shrinkingStringLoop(f, body); ok {
+			} else if why, ok := shrinkingStringLoop(c, f, body); ok {
 				l.Ok("LOOPS", key, pos, why)
 			} else {
 				l.Bad("LOOPS", key, pos, "loop with no recognised termination certificate (not a range, not counted, no visited set, no strictly increasing fresh-name counter)")
@@ -1240,7 +1240,7 @@ func checkExplicitPanics(c *core.Ctx, l *core.Ledger) {
 				return
 			}
 			// (iv) named exception
-			if f.Name() == "goCase" && core.PkgRel(f) == "gen" {
+			if c.Named(f, "goCase") && core.PkgRel(f) == "gen" {
 				l.Add(core.Obligation{Rule: "PANICS", Key: key, Pos: pos, Status: core.Discharged, Detail: "named exception: goCase panics on an empty string; identifiers produced by the scanner are never empty (assumption about the generated scanner)"})
 				return
 			}
@@ -1269,7 +1269,7 @@ func argValidationPanic(c *core.Ctx, f *ssa.Function, p *ssa.Panic) (bool, strin
 	sites := c.StaticCallSites(f)
 	name := core.SSAName(f)
 	switch {
-	case f.Name() == "sortStringKeys":
+	case c.Named(f, "sortStringKeys"):
 		for _, s := range sites {
 			if c.IsTestFile(s.Pos()) {
 				continue
@@ -1304,7 +1304,7 @@ func argValidationPanic(c *core.Ctx, f *ssa.Function, p *ssa.Panic) (bool, strin
 			}
 		}
 		return true, "curry.One validates its function argument: every function registered as curried in the template function tables is a non-variadic func with a leading Generator parameter (enumerated from the tables)"
-	case f.Name() == "compileTypeReference" || f.Name() == "compileConstantValue":
+	case c.Named(f, "compileTypeReference", "compileConstantValue"):
 		return false, ""
 	}
 	return false, ""
